@@ -15,8 +15,8 @@
     `insert_before` merge a text node into an adjacent text node, so `treeOf d` (which does not
     merge) would differ.  With consolidation off nothing is required of text.
   Empty text items are NOT excluded: every API route creates and keeps an empty text node.  They
-  only matter for the parse route (an empty text node serialises to nothing), which is checked on
-  the implementation by the `ffixed` suite, not proved here (`FContent.noEmptyText`).
+  only matter for the parse route (an empty text node serialises to nothing): its theorems (last
+  section) assume the C01 domain, which excludes them (`FContent.noEmptyText`, `C20_representable_wf`).
 
   Hypothesis on the store: ANY forest whose handles are pairwise distinct and below `next`
   (`Good f`; implied by the C04 invariant `Forest.Inv`, `C20_good_of_inv`) — not only the empty
@@ -26,8 +26,10 @@
   From a store satisfying `Forest.Inv` every route ends in a store satisfying `Forest.Inv`
   (`C20_inv_preserved`: the new tree is structurally valid in the sense of C04).
 
-  Not proved here: the parse route (serialise, then parse: C01 / C02 with the tokenizer contract;
-  checked on the implementation by the `ffixed` suite).
+  The parse route (last section: `C20_parse_route`, `C20_all_routes_agree`) is a corollary of the closed
+  loop C01_roundtrip_identical: for a document whose tree is in the C01 domain (`Representable env
+  (treeOf d)`: XML-expressible strings, no empty text, …) and serialises, parsing the text gives
+  `treeOf d` itself, ids included, in the same tables.
 
   ANY construction order (second half of the file): `Model/FanyorderSpec.lean` defines construction
   programs (steps `create`, `append`, `prepend`, `insertAfter`, `insertBefore`, `anyAppend`,
@@ -38,6 +40,8 @@
 -/
 import XotModel.Lemmas.FfixedValid
 import XotModel.Lemmas.FanyorderMain
+import XotModel.Props.C01
+import XotModel.Lemmas.FfixedRepresentable
 
 namespace XotModel.Props
 open XotModel
@@ -377,5 +381,99 @@ example : runSpec { forest := Forest.init } [.create (.element 2), .append 0 0] 
     firstRefused { forest := Forest.init } [.create (.element 2), .append 0 0] = some 1 ∧
     firstIllFormed { forest := Forest.init } [.create (.element 2), .append 0 0] = some 1 := by
   decide +kernel
+
+/-! ## The parse route
+
+  `treeOf d` is a tree over interning ids; `env` is the `Xot`'s tables, in which every name, prefix and
+  namespace of `d` has been interned (by `fixed::…::xotify`'s `add_name_ns` / `add_prefix` /
+  `add_namespace`, or by the caller of the stepwise API).  The parse route — `parse(text)` into the SAME
+  `Xot` — interns nothing new and hands every id back (`p.env = env`), so its tree can be compared
+  with the other routes' literally.  Hypothesis `Representable env (treeOf d)` (decidable,
+  Model/SerTokens.lean): the C01 domain — it implies the well-formedness the API routes need
+  (`C20_representable_wf`) and moreover: no empty text item (`FContent.noEmptyText`), XML Chars,
+  NCName local names and prefixes, comment / PI conditions, normalised unique `xml:id`s, sane tables.
+  The parse route's tree is the builder's `Parsed.tree` (Model/Parse.lean); putting it into the store as
+  a new root is `Xot::parse`'s last step and is not modelled on `Forest`. -/
+
+/-- The C01 domain implies what the API routes need: a document whose tree is `Representable` is well
+    formed relative to EVERY store (text consolidation on or off), and has no empty text item. -/
+theorem C20_representable_wf (env : Env) (f : Forest) (d : FDocument)
+    (hr : Representable env (treeOf d) = true) :
+    FWellFormed f d ∧ d.documentElement.toContent.noEmptyText = true := by
+  simp only [Representable, Bool.and_eq_true] at hr
+  exact FDocument.wf_of_representable f.consolidation d hr.1
+
+/-- **C20_parse_route**: the text of an abstract document — the serialisation of the tree it denotes
+    (which is what every API route builds: `RouteOk`) — parses to exactly that tree: same node kinds
+    and order, same ids for names, prefixes and namespaces, tables unchanged; `deep_equal` answers
+    `true`. -/
+theorem C20_parse_route (env : Env) (d : FDocument) (hr : Representable env (treeOf d) = true) (s : Str)
+    (hs : toXmlString env (treeOf d) [] = .ok s) :
+    ∃ p, parseString .document env s = .ok p ∧ p.tree = treeOf d ∧ p.env = env ∧
+      deepEqual p.tree (treeOf d) = true :=
+  C01_roundtrip_identical env (treeOf d) hr s hs
+
+/-- … and the text exists exactly when every namespaced name of `d` has a usable prefix in scope. -/
+theorem C20_parse_route_writable (env : Env) (d : FDocument) (hr : Representable env (treeOf d) = true)
+    (hw : namesWritable env (treeOf d) [] = some true) :
+    ∃ s p, toXmlString env (treeOf d) [] = .ok s ∧ parseString .document env s = .ok p ∧
+      p.tree = treeOf d ∧ p.env = env ∧ deepEqual p.tree (treeOf d) = true :=
+  C01_roundtrip_writable env (treeOf d) hr hw
+
+/-- The parse route next to ANY route that delivers `treeOf d` (`RouteOk`: `C20_fixed`, `C20_topdown`,
+    `C20_bottomup`, `C20_rtl`, and every construction program by `C20_every_construction`): the tree
+    `T` the route leaves in the store serialises to the text `s` of `d`, and parsing `s` gives a tree
+    that IS `T`, hence `deep_equal` to it and serialising identically. -/
+theorem C20_parse_agrees_with_route (env : Env) (route : Forest → FDocument → Option (Forest × Nat))
+    (f : Forest) (d : FDocument) (h : RouteOk route f d) (hr : Representable env (treeOf d) = true)
+    (s : Str) (hs : toXmlString env (treeOf d) [] = .ok s) :
+    ∃ f' root T p, route f d = some (f', root) ∧ f'.treeAt root = some T ∧
+      toXmlString env T [] = .ok s ∧ parseString .document env s = .ok p ∧ p.tree = T ∧ p.env = env ∧
+      deepEqual p.tree T = true ∧ toXmlString p.env p.tree [] = .ok s := by
+  obtain ⟨t, hx, _, ht, _⟩ := h
+  obtain ⟨p, h1, h2, h3, h4⟩ := C20_parse_route env d hr s hs
+  exact ⟨_, _, treeOf d, p, hx, ht, hs, h1, h2, h3, h4, by rw [h2, h3]; exact hs⟩
+
+/-- **All routes agree, the parse route included**: `fixed::Document::xotify`, top-down, bottom-up and
+    right-to-left construction all leave `treeOf d`; it serialises to one text `s`; `parse(s)` returns
+    `treeOf d` again — so the five trees are pairwise equal as id trees (a fortiori `deep_equal`) and
+    serialise to the same text.  Hypotheses: a store with distinct handles, the C01 domain (which gives
+    the routes' well-formedness, `C20_representable_wf`), every namespaced name has a prefix in scope. -/
+theorem C20_all_routes_agree (env : Env) (f : Forest) (d : FDocument) (hg : Good f)
+    (hr : Representable env (treeOf d) = true) (hw : namesWritable env (treeOf d) [] = some true) :
+    ∃ fa ra ft rt fb rb fr rr s p,
+      f.xotifyDocument d = some (fa, ra) ∧ f.topDownDocument d = some (ft, rt) ∧
+      f.bottomUpDocument d = some (fb, rb) ∧ f.rtlDocument d = some (fr, rr) ∧
+      toXmlString env (treeOf d) [] = .ok s ∧ parseString .document env s = .ok p ∧ p.env = env ∧
+      fa.treeAt ra = some p.tree ∧ ft.treeAt rt = some p.tree ∧ fb.treeAt rb = some p.tree ∧
+      fr.treeAt rr = some p.tree ∧ p.tree = treeOf d ∧ deepEqual p.tree (treeOf d) = true ∧
+      toXmlString p.env p.tree [] = .ok s := by
+  obtain ⟨fa, ra, ft, rt, fb, rb, fr, rr, ha, ht, hb, hr', k1, k2, k3, k4⟩ :=
+    C20_routes_agree f d hg (C20_representable_wf env f d hr).1
+  obtain ⟨s, p, hs, h1, h2, h3, h4⟩ := C20_parse_route_writable env d hr hw
+  refine ⟨fa, ra, ft, rt, fb, rb, fr, rr, s, p, ha, ht, hb, hr', hs, h1, h3, ?_, ?_, ?_, ?_, h2, h4, ?_⟩
+  · rw [k1, h2]
+  · rw [k2, k1, h2]
+  · rw [k3, k1, h2]
+  · rw [k4, k1, h2]
+  · rw [h2, h3]; exact hs
+
+/-- Non-vacuity, closed: `<!--l--><r xmlns="urn:a" xmlns:p="urn:b" k="v">x<p:c/>yz</r>` over the
+    tables `c01Env` of Props/C01. -/
+def docD : FDocument :=
+  { before := [.comment ['l']],
+    documentElement := { name := 2, prefixes := [(0, 2), (2, 3)], attributes := [(4, ['v'])],
+                         children := [.text ['x'], .element 3 [] [] [], .text ['y', 'z']] } }
+
+example : Representable c01Env (treeOf docD) = true ∧ namesWritable c01Env (treeOf docD) [] = some true ∧
+    FWellFormed Forest.init docD ∧
+    toXmlString c01Env (treeOf docD) [] =
+      .ok "<!--l--><r xmlns=\"urn:a\" xmlns:p=\"urn:b\" k=\"v\">x<p:c/>yz</r>".toList :=
+  ⟨by decide, by decide, by unfold FWellFormed; decide, by decide⟩
+
+example : ∃ p, parseString .document c01Env
+      "<!--l--><r xmlns=\"urn:a\" xmlns:p=\"urn:b\" k=\"v\">x<p:c/>yz</r>".toList = .ok p ∧
+    p.tree = treeOf docD ∧ p.env = c01Env ∧ deepEqual p.tree (treeOf docD) = true :=
+  C20_parse_route c01Env docD (by decide) _ (by decide)
 
 end XotModel.Props
